@@ -344,6 +344,7 @@ def shape_tree_glob():
             "data/d2.txt": ["a", "b"],
             "src/g1.in": ["a", "b"],
             "src/g2.in": ["a", "b"],
+            "src/gx.in": ["a", "b"],
         },
         "scripts": {
             "./plan.py": {
@@ -352,7 +353,7 @@ def shape_tree_glob():
                     "v1": [
                         ["tree", ["data/"]],
                         ["sglob", "src/*.in"],
-                        ["glob", "src/*.in", {}, [["step", "G:{s}", {"inp": ["{m}"], "out": ["out/{s}.out"]}]]],
+                        ["glob", "src/g${*i}.in", {"i": "[0-9]"}, [["step", "G:{s}", {"inp": ["{m}"], "out": ["out/{s}.out"]}]]],
                         ["step", "T1", {"inp": ["data/d1.txt"], "out": ["t1.txt"]}],
                     ]
                 },
@@ -360,6 +361,7 @@ def shape_tree_glob():
             "G:g1": GENERIC_WORKER,
             "G:g2": GENERIC_WORKER,
             "G:g3": GENERIC_WORKER,
+            "G:gx": GENERIC_WORKER,
             "T1": worker_script(dyn_inp=["data/d2.txt"]),
         },
     }
@@ -449,6 +451,7 @@ class Gen:
             "dyn_out": 0.1,
             "workdir": 0.1,
             "const_out": 0.15,
+            "overrides": 0.2,
             "clobber": 0.04,
             "late_subplan": 0.3,
         }
@@ -464,7 +467,7 @@ class Gen:
         if use_tree:
             tree_files = ["data/d1.txt", "data/d2.txt"]
         use_glob = self.flip("glob")
-        glob_files = ["src/g1.in", "src/g2.in"] if use_glob else []
+        glob_files = ["src/g1.in", "src/g2.in", "src/gx.in"] if use_glob else []
         nsub = 0
         if self.flip("subplan"):
             nsub = rng.choice([1, 1, 2])
@@ -491,6 +494,8 @@ class Gen:
                 decl["need"] = "OPTIONAL"
             if self.flip("env"):
                 decl["env"] = [rng.choice(["VV_A", "VV_B"])]
+            if self.flip("overrides"):
+                decl["overrides"] = {"VV_O": rng.choice(["1", "2"])}
             if self.flip("resources"):
                 decl["resources"] = {rng.choice(["gpu", "gpu", "tpu"]): rng.choice([1, 1, 2])}
             workers[name] = {"decl": decl, "where": rng.randrange(0, nsub + 1)}
@@ -527,7 +532,10 @@ class Gen:
             plan_versions[v] = self.render_plan(cfg, 0)
             for si in range(nsub):
                 sub_versions[si][v] = self.render_plan(cfg, si + 1)
-        src = {"plan.py": list(plan_versions)}
+        # twins: same operations, different file content (an edit that changes nothing the plan does)
+        for v in list(plan_versions):
+            plan_versions[v + "b"] = copy.deepcopy(plan_versions[v])
+        src = {"plan.py": [v for v in plan_versions if not v.endswith("b")]}
         for s in sources:
             src[s] = ["a", "b", "c"]
         for s in tree_files + glob_files:
@@ -538,7 +546,7 @@ class Gen:
             src[f"sub{si + 1}.py"] = list(plan_versions)
             scripts[f"./sub{si + 1}.py"] = {"on": f"sub{si + 1}.py", "versions": sub_versions[si]}
         if use_glob:
-            for g in ("g1", "g2", "g3"):
+            for g in ("g1", "g2", "g3", "gx"):
                 scripts[f"G:{g}"] = GENERIC_WORKER
         return {
             "name": f"gen{rng.randrange(10**6)}",
@@ -602,7 +610,8 @@ class Gen:
                 ops.append(["step", f"./sub{si + 1}.py", {"inp": [f"sub{si + 1}.py"], "need": "PLAN"}])
             if cfg["glob"]:
                 ops.append(["sglob", "src/*.in"])
-                ops.append(["glob", "src/*.in", {}, [["step", "G:{s}", {"inp": ["{m}"], "out": ["gout/{s}.out"]}]]])
+                # a named wildcard restricted by a sub-pattern: gx.in only matches the unrestricted form
+                ops.append(["glob", "src/g${*i}.in", {"i": "[0-9]"}, [["step", "G:{s}", {"inp": ["{m}"], "out": ["gout/{s}.out"]}]]])
         mine = [w for w in sorted(cfg["workers"]) if cfg["active"][w] and cfg["workers"][w]["where"] == where]
         if cfg["hold"] and where == 0 and mine:
             ops.append(["hold"])
